@@ -1,10 +1,12 @@
 INIT Init
 NEXT Next
 CONSTANTS
-  Kinds = {"arg", "type", "sig", "function", "property", "signal", "vfunc", "field", "value"}
+  Dev = {}
+  Kinds = {"arg", "type", "sig", "function", "property", "signal", "vfunc", "field", "value", "attrs", "constsize", "api"}
   Strict = FALSE
   Full = TRUE
   MaxCnt = 1
 INVARIANT BuildEncodes
 INVARIANT InvTypeSane
+INVARIANT InvApi
 CHECK_DEADLOCK FALSE
